@@ -42,6 +42,16 @@ def run(ctx):
     from rules.c05 import _Renamed
     r95(_Renamed(ctx, 'S13.6'), prog)
     s13_7(ctx, prog)
+    # S13.8 "never evaluates successfully in any context": an operator that lacks an operand is found out when its node is evaluated
+    # (S13.4: the arity checks of Operator::eval), so every node of the tree has to be evaluated by both root evaluators, also the
+    # elements of a chain whose values are discarded - the C08 R8.1-R8.3 analysis of each evaluator, reported here
+    from rules.c08 import evaluator
+    for name, opname in (('eval_with_context', 'eval'), ('eval_with_context_mut', 'eval_mut')):
+        f = prog.fn('tree::Node::<NumericTypes>::' + name)
+        if f is None:
+            ctx.unrecognised('S13.8', 'Node::' + name, 'missing', 'evaluator not found')
+            continue
+        evaluator(_Renamed(ctx, 'S13.8'), prog, f, name, opname)
 
 
 def s13_7(ctx, prog):
